@@ -145,7 +145,10 @@ class C15(Prop):
     rule = ('hash lists and transaction lists of every count 1..70 and 2^k-1, 2^k, 2^k+1 up to 1025 (distinct, all '
             'equal, trailing duplicates, random duplicates), with no / all-empty / partial / full witness data; '
             'constructor with zero / right / wrong / near-miss declared root; weights of transactions over varint '
-            'boundary script lengths and witness patterns and of the generated blocks; non-trivial = every case '
+            'boundary script lengths and witness patterns and of the generated blocks; every CompactSize-encoded count / '
+            'length (block tx count 252/253/254.., vin/vout counts, script lengths, witness item counts and lengths; '
+            '0xffff/0x10000 for lengths in quick and for counts in thorough) driven across its boundaries for GetWeight, '
+            'both serialize() lengths and every calc_weight (op c15.sizes); non-trivial = every case '
             '(no default-constructed object is generated); distinct by canonical request line')
 
     def setup(self):
@@ -163,6 +166,7 @@ class C15(Prop):
         yield from self.gen_hash_lists(rng, big)
         yield from self.gen_tx_lists(rng, big)
         yield from self.gen_weights(rng, big)
+        yield from self.gen_sizes(rng, big)
 
     def mine(self):
         self._g += 1
@@ -329,6 +333,89 @@ class C15(Prop):
         t['wit'] = [[], []]
         yield mk('c15.weight', 'i', txfmt.show_tx(t), tag='weight more (empty) stacks than inputs')
 
+    # ---- every CompactSize-encoded count / length across its boundaries, for every size observable ----
+    def gen_sizes(self, rng, big):
+        def tiny(wit):
+            # the smallest well-formed transactions (about 60 bytes): 1 input, 1 output, empty scripts
+            t = dict(ver=1, lock=0, vin=[(rnd_bytes(rng, 32), 0, b'', 0)], vout=[(1, b'')], wit=None)
+            if wit == 'all' or (wit == 'mixed' and rng.random() < 0.5):
+                t['wit'] = [[rnd_bytes(rng, rng.choice([0, 1, 2]))]]
+            elif wit == 'empty':
+                t['wit'] = [[]]
+            return t
+
+        def block_of(txs):
+            hdr = dict(ver=2, prev=rnd_bytes(rng, 32), merkle=ZERO32, time=1, bits=0x207fffff, nonce=0)
+            return txfmt.show_block(dict(hdr=hdr, vtx=txs))
+
+        # (a) transaction count of the block on both sides of each CompactSize boundary
+        counts = [1, 2, 251, 252, 253, 254, 255, 256, 257]
+        for n in counts:
+            for wit in ('none', 'all', 'mixed', 'empty', 'cbonly'):
+                if not self.mine():
+                    continue
+                cbw = [[rnd_bytes(rng, 32)]] if wit in ('all', 'mixed', 'cbonly') else None
+                txs = [coinbase_tx(rng, wit=cbw, script_len=2, outs=[(1, b'')])]
+                txs += [tiny('none' if wit == 'cbonly' else wit) for _ in range(n - 1)]
+                blk = block_of(txs)
+                yield mk('c15.sizes', blk, tag='sizes ntx=%d %s' % (n, wit))
+                yield mk('c15.spec.sizes', blk, tag='spec-sizes ntx=%d %s' % (n, wit))
+        if big:
+            for n in (0xffff, 0x10000, 0x10001):
+                for wit in ('none', 'mixed'):
+                    if not self.mine():
+                        continue
+                    cbw = [[rnd_bytes(rng, 32)]] if wit == 'mixed' else None
+                    txs = [coinbase_tx(rng, wit=cbw, script_len=2, outs=[(1, b'')])]
+                    txs += [tiny(wit) for _ in range(n - 1)]
+                    blk = block_of(txs)
+                    yield mk('c15.sizes', blk, tag='sizes ntx=%d %s' % (n, wit))
+                    yield mk('c15.spec.sizes', blk, tag='spec-sizes ntx=%d %s' % (n, wit))
+        # (b) every count / length field inside a transaction across its boundaries; each transaction is
+        #     observed alone (calc_weight) and inside a 2-transaction block (GetWeight, serialize lengths)
+        small = [0, 1, 251, 252, 253, 254, 255, 256]
+        wide = [0xfffe, 0xffff, 0x10000, 0x10001]
+        fields = []
+        for v in small + wide:
+            fields += [('script-sig-len', v), ('script-pubkey-len', v), ('wit-item-len', v)]
+        for v in small + (wide if big else [0xffff, 0x10000]):
+            fields += [('wit-items', v)]
+        for v in [1, 251, 252, 253, 254, 255] + ([0xffff, 0x10000] if big else []):
+            fields += [('nin', v), ('nout', v), ('nin-wit', v)]
+        for what, v in fields:
+            for wit in ('none', 'all', 'first-empty'):
+                if what in ('wit-item-len', 'wit-items', 'nin-wit') and wit != 'all':
+                    continue
+                if not self.mine():
+                    continue
+                t = dict(ver=2, lock=7, vin=[(rnd_bytes(rng, 32), 1, b'', 0)], vout=[(2, b'')], wit=None)
+                if what == 'script-sig-len':
+                    t['vin'][0] = (t['vin'][0][0], 1, rnd_bytes(rng, v), 0)
+                elif what == 'script-pubkey-len':
+                    t['vout'][0] = (2, rnd_bytes(rng, v))
+                elif what in ('nin', 'nin-wit'):
+                    t['vin'] = [(rnd_bytes(rng, 32), k, b'', 0) for k in range(v)]
+                elif what == 'nout':
+                    t['vout'] = [(k, b'') for k in range(v)]
+                if wit == 'all':
+                    t['wit'] = [[b'\x01'] for _ in t['vin']]
+                elif wit == 'first-empty':
+                    # only the first stack is empty: the witness is NOT null when there is a second input
+                    t['vin'] = t['vin'] + [(rnd_bytes(rng, 32), 9, b'', 0)] if len(t['vin']) == 1 else t['vin']
+                    t['wit'] = [[]] + [[b'\x02', b'']] * (len(t['vin']) - 1)
+                if what == 'wit-item-len':
+                    t['wit'] = [[rnd_bytes(rng, v)]] + [[] for _ in t['vin'][1:]]
+                elif what == 'wit-items':
+                    t['wit'] = [[b''] * v] + [[] for _ in t['vin'][1:]]
+                elif what == 'nin-wit':
+                    t['wit'] = [[] for _ in t['vin']]
+                    t['wit'][-1] = [b'\x05']
+                name = '%s=%d %s' % (what, v, wit)
+                yield from self.weight_cases(t, rng.choice(['i', 'm']), name)
+                blk = block_of([coinbase_tx(rng, wit=[[rnd_bytes(rng, 32)]], script_len=2, outs=[(1, b'')]), t])
+                yield mk('c15.sizes', blk, tag='sizes ' + name)
+                yield mk('c15.spec.sizes', blk, tag='spec-sizes ' + name)
+
     def weight_cases(self, t, cls, what):
         s = txfmt.show_tx(t)
         yield mk('c15.weight', cls, s, tag='weight ' + what)
@@ -368,6 +455,15 @@ class C15(Prop):
             return guarded(f)
         if op in ('c15.weight', 'c15.spec.weight'):
             return guarded(lambda: str(txfmt.to_tx(txfmt.parse_tx(a[1]), mutable=(a[0] == 'm')).calc_weight()))
+        if op in ('c15.sizes', 'c15.spec.sizes'):
+            b = txfmt.parse_block(a[0])
+            h = b['hdr']
+            blk = C.CBlock(h['ver'], h['prev'], h['merkle'], h['time'], h['bits'], h['nonce'],
+                           [txfmt.to_tx(t) for t in b['vtx']])
+            return ';'.join([guarded(lambda: str(blk.GetWeight())),
+                             guarded(lambda: str(len(blk.serialize(dict(include_witness=False))))),
+                             guarded(lambda: str(len(blk.serialize()))),
+                             ','.join(guarded(lambda tx=tx: str(tx.calc_weight())) for tx in blk.vtx)])
         if op in ('c15.bweight', 'c15.spec.bweight'):
             def f():
                 b = txfmt.parse_block(a[0])
@@ -392,7 +488,7 @@ class C15(Prop):
             txs = a[0].split('/') if a[0] else []
             for k in self._drops(len(txs)):
                 yield mk(op, '/'.join(txs[:k[0]] + txs[k[1]:]), tag=tag)
-        elif op in ('c15.ctor', 'c15.spec.ctor', 'c15.bweight', 'c15.spec.bweight'):
+        elif op in ('c15.ctor', 'c15.spec.ctor', 'c15.bweight', 'c15.spec.bweight', 'c15.sizes', 'c15.spec.sizes'):
             parts = a[0].split('/')
             for k in self._drops(len(parts) - 1):
                 yield mk(op, '/'.join(parts[:1] + parts[1:][:k[0]] + parts[1:][k[1]:]), tag=tag)
